@@ -540,6 +540,12 @@ REASONS = [("out of date", "out-of-date"), ("incomplete or damaged", "damaged"),
            ("different compiler options", "options"), ("CasADi version", "casadi-version"), ("incompatible OS", "os")]
 
 
+def coarse(kind):
+    """hit / compiled / raised / direct — the part of a decision that is compared with the model.  The reason
+    after the colon is read off the exception *message* and is only informative (evidence buckets)."""
+    return str(kind).split(":", 1)[0]
+
+
 def reason_of(msg):
     for pat, r in REASONS:
         if pat in msg:
